@@ -76,7 +76,7 @@ var proxySpecs = []proxySpec{
 		}
 	}},
 	{"sidecar-ns1", func() *model.Proxy {
-		l := map[string]string{"app": "x"}
+		l := map[string]string{"app": "a", "version": "v2"}
 		return &model.Proxy{
 			Type: model.SidecarProxy, ID: "x-0.ns1", ConfigNamespace: "ns1", DNSDomain: "ns1.svc.cluster.local",
 			IPAddresses: []string{"10.99.0.1"}, Labels: l, Locality: &corev3.Locality{},
@@ -114,12 +114,16 @@ func (c permCase) proxies() []proxySpec {
 
 // setProfile switches the process-wide feature flags of the profile on; the returned function restores them.
 func (c permCase) setProfile() func() {
-	if c.prof != "waypoint" {
-		return func() {}
+	a, w, pb := features.EnableAmbient, features.EnableAmbientWaypoints, features.SidecarPickBestServiceNamespace
+	if c.prof == "waypoint" {
+		features.EnableAmbient, features.EnableAmbientWaypoints = true, true
 	}
-	a, w := features.EnableAmbient, features.EnableAmbientWaypoints
-	features.EnableAmbient, features.EnableAmbientWaypoints = true, true
-	return func() { features.EnableAmbient, features.EnableAmbientWaypoints = a, w }
+	if c.flag == "nopickbest" {
+		features.SidecarPickBestServiceNamespace = false
+	}
+	return func() {
+		features.EnableAmbient, features.EnableAmbientWaypoints, features.SidecarPickBestServiceNamespace = a, w, pb
+	}
 }
 
 var permTypes = []string{"CDS", "EDS", "LDS", "RDS", "ECDS", "NDS"}
@@ -132,6 +136,7 @@ type permCase struct {
 	seed uint64
 	mesh string // name of a hand-written witness mesh (witness.go); "" = the generated mesh of `seed`
 	prof string // "" (sidecars + router) or "waypoint" (ambient on, waypoint proxy)
+	flag string // "" or "nopickbest" (PILOT_SIDECAR_PICK_BEST_SERVICE_NAMESPACE=false)
 	k, r int
 	keep []int // nil = all
 }
@@ -150,6 +155,8 @@ func parsePermCase(f []string) permCase {
 			c.mesh = kv[1]
 		case "profile":
 			c.prof = kv[1]
+		case "flags":
+			c.flag = kv[1]
 		case "K":
 			c.k = atoi(kv[1])
 		case "R":
@@ -182,6 +189,9 @@ func (c permCase) line() []string {
 	l := []string{"case", c.n, "perm", src, "K=" + strconv.Itoa(c.k), "R=" + strconv.Itoa(c.r), "keep=" + keep}
 	if c.prof != "" {
 		l = append(l, "profile="+c.prof)
+	}
+	if c.flag != "" {
+		l = append(l, "flags="+c.flag)
 	}
 	return l
 }
@@ -230,6 +240,8 @@ func genPerm(seed uint64, n int, outp string) {
 		c := permCase{n: strconv.Itoa(i), seed: root.Next() % 1000000007, k: k, r: r}
 		if i%6 == 5 {
 			c.prof = "waypoint"
+		} else if i%6 == 2 {
+			c.flag = "nopickbest"
 		}
 		out.Line(c.line()...)
 	}
@@ -283,6 +295,8 @@ func createLateK8s(s *txds.FakeDiscoveryServer, o runtime.Object) error {
 		_, err = kc.DiscoveryV1().EndpointSlices(x.Namespace).Create(ctx, x, metav1.CreateOptions{})
 	case *gatewayv1.Gateway:
 		_, err = s.KubeClient().GatewayAPI().GatewayV1().Gateways(x.Namespace).Create(ctx, x, metav1.CreateOptions{})
+	case *gatewayv1.HTTPRoute:
+		_, err = s.KubeClient().GatewayAPI().GatewayV1().HTTPRoutes(x.Namespace).Create(ctx, x, metav1.CreateOptions{})
 	case *networkingclient.ServiceEntry:
 		_, err = s.KubeClient().Istio().NetworkingV1().ServiceEntries(x.Namespace).Create(ctx, x, metav1.CreateOptions{})
 	case *networkingclient.WorkloadEntry:
@@ -340,18 +354,29 @@ func (w *world) fingerprint() string {
 	return strconv.Itoa(len(lines)) + ":" + hex.EncodeToString(h[:8])
 }
 
+// specHash: digest of a config's spec (converted objects - Gateway API routes, merged VirtualServices - are state too).
+func specHash(spec config.Spec) string {
+	m, ok := spec.(proto.Message)
+	if !ok {
+		return "-"
+	}
+	b, _ := proto.MarshalOptions{Deterministic: true}.Marshal(m)
+	h := sha256.Sum256(b)
+	return hex.EncodeToString(h[:6])
+}
+
 func (w *world) fingerprintLines() []string {
 	env := w.s.Env()
 	var lines []string
 	for _, sch := range collections.Pilot.All() {
 		for _, c := range env.ConfigStore.List(sch.GroupVersionKind(), "") {
-			lines = append(lines, "cfg "+sch.Kind()+" "+c.Namespace+"/"+c.Name)
+			lines = append(lines, "cfg "+sch.Kind()+" "+c.Namespace+"/"+c.Name+" "+specHash(c.Spec)+" t="+strconv.FormatInt(c.CreationTimestamp.Unix(), 10))
 		}
 	}
 	if env.VirtualServiceController != nil {
 		// derived asynchronously from the config store; PushContext reads this, not the store
 		for _, v := range env.VirtualServiceController.MergedVirtualServices() {
-			lines = append(lines, "mvs "+v.Namespace+"/"+v.Name)
+			lines = append(lines, "mvs "+v.Namespace+"/"+v.Name+" "+specHash(v.Spec))
 		}
 	}
 	for _, s := range env.ServiceDiscovery.Services() {
@@ -701,13 +726,19 @@ func (w *world) snapshot(prev *model.PushContext, rep int) (snapshot, *model.Pus
 	if prev == nil {
 		push.InitContext(env, nil, nil)
 	} else {
+		if k := os.Getenv("C17_INCR_KIND"); k != "" {
+			rep = atoi(k)
+		}
 		push.InitContext(env, prev, &model.PushRequest{
 			ConfigsUpdated: sets.New(model.ConfigKey{Kind: incrKinds[rep%len(incrKinds)], Name: "does-not-matter", Namespace: "default"}),
 			Reason:         model.NewReasonStats(model.ConfigUpdate),
 		})
 	}
 	out := snapshot{}
-	for _, ps := range w.proxies {
+	for i := range w.proxies {
+		// the order in which the proxies are served rotates from one generation to the next: what a proxy gets must
+		// not depend on which proxies were served before it (lazily computed, cached scopes)
+		ps := w.proxies[(i+rep)%len(w.proxies)]
 		p := setupProxy(w, ps.mk(), push)
 		cds := generate(w, p, push, "CDS", nil)
 		out[ps.name+":CDS"] = cds
